@@ -111,6 +111,7 @@ func (st *StateDB) RemoveValidator(mainAddress common.Address) bool {
 	val := value.(*Validator)
 	st.validatorJournal.append(validatorDeleteChange{address: &mainAddress, oldVal: val})
 	val.deleted = true
+	st.validatorsSorted = atomic.Value{}
 
 	st.decrValidatorsStat(val)
 	return true
@@ -149,7 +150,9 @@ func (st *StateDB) GetValidators() *Validators {
 	if set == nil {
 		vals := []*Validator{}
 		st.validatorObjects.Range(func(key, value interface{}) bool {
-			if value != nil {
+			// a removed validator stays in the map (flagged deleted) until the state object
+			// is dropped; it is not part of the validator set any more
+			if value != nil && !value.(*Validator).deleted {
 				vals = append(vals, value.(*Validator))
 			}
 			return true
@@ -357,6 +360,8 @@ func (st *StateDB) updateValidator(val *Validator) {
 
 func (st *StateDB) deleteValidator(val *Validator) {
 	val.deleted = true
+	// the sorted set may have been built while the validator was still there
+	st.validatorsSorted = atomic.Value{}
 	st.deleteStakingData(val.MainAddress(), validatorFlag)
 	st.validatorIndex.Delete(val.MainAddress())
 	st.decrValidatorsStat(val)
